@@ -224,6 +224,102 @@ SPECIFIED = ("caar cadr cdar cddr caaar caadr cadar caddr cdaar cdadr cddar cddd
              "fold-right list-tail list-ref last-pair memq memv equal?").split()
 
 
+def native_rows(ctx, rule, name):
+    """`name` is supplied by the native library instead of scheme/base.sld: the same rows, run through the Rust procedure registered
+    under that name (abstract machine on real list values with opaque atoms).  -> rows decided, or None when there is no such native"""
+    from . import registry, evaltables, machine, absint, mir
+    from .absint import Enum
+    fb = ctx.fb()
+    try:
+        regs = {r["name"]: r for r in registry.read(fb)}
+    except Exception:
+        return None
+    r = regs.get(name)
+    f = fb.by_path(r["target"]) if r and r.get("target") else None
+    if f is None:
+        return None
+    from .ctx import where_of
+    w = evaltables.tables(fb)["w"]
+    num = dict((n, i) for i, n in fb.variants("values::Number"))
+
+    def val(v, toks):
+        if isinstance(v, Pair) or v is NIL:
+            node = w.named(w.gp, "Empty", []) if v is NIL else w.named(w.gp, "Some", [val(v.car, toks), val(v.cdr, toks)])
+            node.adt = "parser::pair::GenericPair"
+            e = w.named(w.val, "Pair", [node])
+        elif isinstance(v, bool):
+            e = w.named(w.val, "Boolean", [v])
+        elif isinstance(v, int):
+            e = w.named(w.val, "Number", [w.named(num, "Integer", [v])])
+        elif isinstance(v, Atom) and getattr(v, "num", None) is not None and getattr(v, "exact", True):
+            e = w.named(w.val, "Number", [w.named(num, "Integer", [int(v.num)])])
+        else:
+            # (an atom of the table: a symbol of its own — a real value, so that code asking "is this a pair?" gets an answer)
+            nm_ = "atom-%d" % len(toks)
+            toks[nm_] = v
+            e = w.named(w.val, "Symbol", [nm_])
+        e.adt = "values::Value"
+        return e
+
+    def back(x, toks):
+        x = absint.deref(x)
+        if isinstance(x, Enum):
+            n = getattr(x, "name", None)
+            if n == "Symbol" and x.fields and x.fields[0] in toks:
+                return toks[x.fields[0]]
+            if n == "Pair":
+                node = absint.deref(x.fields[0])
+                if getattr(node, "name", None) == "Empty":
+                    return NIL
+                return Pair(back(node.fields[0], toks), back(node.fields[1], toks))
+            if n == "Boolean":
+                return bool(x.fields[0])
+            if n == "Number" and isinstance(x.fields[0], Enum) and x.fields[0].variant == num.get("Integer"):
+                return x.fields[0].fields[0]
+        raise ValueError("a result this table cannot read (%r)" % (x,))
+    n_rows, bad, und = 0, None, None
+    for nm, label, args, ref, uses_proc in rows():
+        if nm != name:
+            continue
+        if uses_proc or any(a == "PROC" for a in args):
+            und = und or "rows with a procedure argument are not run through the native"
+            continue
+        toks = {}
+        try:
+            margs = [val(a, toks) for a in args]
+            mc = machine.Machine(fb, max_visits=12, budget=2000)
+            res = mc.run(f, [margs] + [absint.UNKNOWN] * max(0, f.arg_count - 1))
+        except (absint.Stuck, absint.Loop) as e:
+            und = und or "(%s %s): %s" % (name, " ".join(show(a) for a in args), e)
+            continue
+        want = outcome(ref)
+        panics = [e for e in mc.events if e[0] == "panic"]
+        try:
+            if panics:
+                got = ("panic", panics[0][1])
+            elif isinstance(res, Enum) and getattr(res, "name", None) == "Ok":
+                got = ("value", back(res.fields[0], toks))
+            elif isinstance(res, Enum) and getattr(res, "name", None) == "Err":
+                got = ("error", None)
+            else:
+                raise ValueError("result %r" % (res,))
+        except ValueError as e:
+            und = und or "(%s %s): %s" % (name, " ".join(show(a) for a in args), e)
+            continue
+        n_rows += 1
+        same = got[0] == want[0] and (got[0] != "value" or show(got[1]) == show(want[1]))
+        if not same and bad is None:
+            bad = "(%s %s) [%s] gives %s; its definition gives %s" % (name, " ".join(show(a) for a in args), label,
+                                                                      "a panic (%s)" % got[1] if got[0] == "panic" else describe(got), describe(want))
+    if und:
+        ctx.undecided(rule, name, "native %s: %s" % (name, und), where_of(f))
+    ctx.inst(rule, name, {"rows": n_rows, "agrees_with_definition": bad is None, "native": f.name})
+    ctx.oblige(bad is None)
+    if bad:
+        ctx.report(rule, name, bad + " (the native procedure registered as %s)" % name, where_of(f))
+    return n_rows
+
+
 def rule_list_library(ctx, rule, only=None):
     from .ctx import where_of
     import os
@@ -277,7 +373,11 @@ def rule_list_library(ctx, rule, only=None):
         if st is None:
             continue
         if st.get("native_or_missing"):
-            ctx.undecided(rule, name, "%s is not defined in scheme/base.sld (native or missing): no table" % name, where)
+            nat = native_rows(ctx, rule, name)
+            if nat is None:
+                ctx.undecided(rule, name, "%s is not defined in scheme/base.sld (native or missing): no table" % name, where)
+            else:
+                decided += 1 if nat else 0
             continue
         if st.get("undecided"):
             ctx.undecided(rule, name, st["undecided"], where)
